@@ -72,6 +72,14 @@ impl<T: Eq + PartialOrd + Send + Sync, A: Clone> Graph<T, A> {
     // get_all_edges is a values().flatten().collect() pipeline outside the verifier's reach (A5)
     pub uninterp spec fn stored_edge_count(&self) -> nat;
 
+    // every traversal entry names an existing position (what the algorithm kernels index with)
+    pub open spec fn wf_rows(&self) -> bool {
+        &&& forall|i: int, k: int| 0 <= i < self.successors_vec@.len() && 0 <= k < self.successors_vec@[i]@.len()
+                ==> (#[trigger] self.successors_vec@[i]@[k]).node_index < self.n()
+        &&& forall|i: int, k: int| 0 <= i < self.predecessors_vec@.len() && 0 <= k < self.predecessors_vec@[i]@.len()
+                ==> (#[trigger] self.predecessors_vec@[i]@[k]).node_index < self.n()
+    }
+
     // ---- position-keyed edge store ----
     pub open spec fn has_pair(&self, u: usize, v: usize) -> bool {
         self.edges_map@.contains_key(u) && self.edges_map@[u]@.contains_key(v)
@@ -259,6 +267,7 @@ pub open spec fn ae_wf<T: Eq + PartialOrd + Send + Sync, A: Clone>(pre: Graph<T,
     &&& post.wf_nodes()
     &&& post.wf_estore()
     &&& post.specs == pre.specs
+    &&& (pre.wf_rows() ==> post.wf_rows())
 }
 
 pub open spec fn ae_store<T: Eq + PartialOrd + Send + Sync, A: Clone>(pre: Graph<T, A>, e: Edge<T, A>, post: Graph<T, A>, r: Result<(), Error>) -> bool {
